@@ -199,10 +199,29 @@ func CheckCall(sc *Scenario, v *CallView, rs RuleSet, em int) []Violation {
 			starts, ends := map[int]int{}, map[int]int{}
 			minSeq, maxSeq := int64(-1), int64(-1)
 			fired := false
+			nExtra := ConcExtras(s.Arg)
+			extraStarts := make([]int, nExtra)
 			for _, e := range x.Kids {
 				code := int(e.C)
 				if e.Kind == EvK {
 					code >>= 1
+				}
+				if code >= extraBase {
+					if (code-extraBase)/64 != p {
+						continue
+					}
+					if j := (code - extraBase) % 64; e.Kind == EvK && j < nExtra {
+						extraStarts[j]++
+					} else if e.Kind == EvK {
+						add("conc-child-count", "extra", fmt.Sprintf("%s: rule %d ran a conc statement (%d) its block does not have", c, x.Rule, j))
+					}
+					if minSeq < 0 || e.Seq < minSeq {
+						minSeq = e.Seq
+					}
+					if e.Seq > maxSeq {
+						maxSeq = e.Seq
+					}
+					continue
 				}
 				if code/8 != p {
 					continue
@@ -232,6 +251,12 @@ func CheckCall(sc *Scenario, v *CallView, rs RuleSet, em int) []Violation {
 				}
 				if starts[k] != wantN {
 					add("conc-child-count", fmt.Sprintf("child%d", k), fmt.Sprintf("%s: rule %d conc child %d ran %d times, want %d", c, x.Rule, k, starts[k], wantN))
+				}
+			}
+			for j, n := range extraStarts {
+				if n != 1 {
+					add("conc-child-count", "extra", fmt.Sprintf("%s: rule %d: statement %d of the %d further statements of its conc block ran %d times, want 1", c, x.Rule, j, nExtra, n))
+					break
 				}
 			}
 			// the parent's next own event must come after every child event
